@@ -10,7 +10,10 @@ struct RngDev {
   std::set<std::string> failed_sources;                   // sources that have ever failed in this process (may be memoised as broken)
   std::map<int, int> open_fds;                            // simulated descriptor -> task that opened it
   int next_fd = 0;
+  int fd_base = 1000;                                     // lowest descriptor number open() hands out in this run
   long full_draws = 0;
   unsigned long partials = 0;
+  int fired_in_op[8] = {0};
+  int grb_calls[8] = {0}, grb_ok[8] = {0};                // get_random_bytes calls of the task's current op, and how many reported success                               // faults that actually fired in the task's current op
 };
 extern RngDev g_rngdev;
